@@ -49,6 +49,9 @@ def check(rep, tier, seed):
         name, err, inf = c["accept"]
         chunks = [ch.encode() for ch in c["line"]] if c["line"] else []
         scn = {"calls": 1, "histories": c["srcs"], "no_snapshot": True}
+        if rnd.random() < 0.4 and name != "multiline" and not c["line"].endswith("\\"):
+            scn["multiline"] = True          # the application has an AcceptMultiline callback; the line is complete
+            c["callback"] = True
         typed = c["line"]
         if name == "interrupt":
             chunks.append(b"\x03")
@@ -91,7 +94,8 @@ def check(rep, tier, seed):
         for _ in range(d.int()):
             d.int()
             model_srcs.append([d.str() for _ in range(d.int())])
-        desc = {"sources": [(s["kind"], s["lines"]) for s in c["srcs"]], "history_size": c["size"], "line": c["typed"], "accept": name}
+        desc = {"sources": [(s["kind"], s["lines"]) for s in c["srcs"]], "history_size": c["size"], "line": c["typed"], "accept": name,
+                "accept_multiline_callback": c.get("callback", False)}
         if not rets:
             bad.append({"case": desc, "failure": "Readline did not return (%s) %s" % (r["outcome"], [e["msg"] for e in r["events"] if e["ev"] == "panic"])})
             continue
